@@ -1049,6 +1049,9 @@ def local_scope(F, b, limit=12):
                     cb = F.bodies[c.name]
                     if cb.vis.startswith("Restricted") and cb.file == b.file and cb.path not in seen:
                         work.append(cb)
+                    elif cb.impl_of and cb.file == b.file and cb.path not in seen and getattr(F, "reviewed_adts", None) is not None \
+                            and cb.self_ty in F.adts and cb.self_ty not in F.reviewed_adts:
+                        work.append(cb)      # a trait method of a type introduced after the review (`impl From<&Object> for NewEnum`) is such a helper too
     return out
 
 
